@@ -47,10 +47,17 @@ try:
     if mp is None:
         print(json.dumps(res, indent=1)); sys.exit(1)
     res["patch_applies"] = True
-    rc, out = run(["go", "build", "-o", "/dev/null", "."], mp); res["builds"] = rc == 0
-    rc, out = run(["go", "test", "-vet=off", "-count=1", "-skip", "Perf", "."], mp); res["repo_tests_pass_with_patch"] = rc == 0
-    if rc != 0: res["repo_tests_output"] = out[-800:]
-    if demo:
+    prev = {}
+    if "--checks-only" in args and os.path.exists(os.path.join(d, "confirm.json")):
+        # the change itself was confirmed before (build, repository tests, demonstration): only the checks are re-run
+        prev = json.load(open(os.path.join(d, "confirm.json")))
+        for k in ("builds", "repo_tests_pass_with_patch", "demo_fails_with_patch", "demo_passes_without_patch"):
+            if k in prev: res[k] = prev[k]
+    if not prev:
+        rc, out = run(["go", "build", "-o", "/dev/null", "."], mp); res["builds"] = rc == 0
+        rc, out = run(["go", "test", "-vet=off", "-count=1", "-skip", "Perf", "."], mp); res["repo_tests_pass_with_patch"] = rc == 0
+        if rc != 0: res["repo_tests_output"] = out[-800:]
+    if demo and not prev:
         rc, out = run(demo_cmd(mp), mp, 300); res["demo_fails_with_patch"] = rc != 0
         for f in demo: os.remove(os.path.join(mp, f))
         m0 = scratch(False)
